@@ -165,7 +165,7 @@ type Op struct {
 
 type Case struct{ Ops []Op }
 
-var kinds = []string{"subscribe", "addValue", "addParam", "addCliParam", "setMany", "addF2", "addF3", "addFA", "addFE", "addFAA", "connectMany", "connect", "connect", "connect", "connect", "disconnect", "set", "set", "set", "read", "read", "read", "read", "state"}
+var kinds = []string{"setBad", "subscribe", "addValue", "addParam", "addCliParam", "setMany", "addF2", "addF3", "addFA", "addFE", "addFAA", "connectMany", "connect", "connect", "connect", "connect", "disconnect", "set", "set", "set", "read", "read", "read", "read", "state"}
 
 func genCase(t *rapid.T) Case {
 	min := rapid.IntRange(5, 40).Draw(t, "minSteps")
@@ -192,6 +192,7 @@ type mnode struct {
 	cnt      *counter
 	out      func() int
 	set      func(int) error
+	raw      func([]byte) error // parameter sources: ApplyMessage with the message as it is
 	sub      func(nodes.Alertable) // sources: AddSubscription
 	watchers []*watcher
 	setInput func(string, nodes.NodeOutputReference)
@@ -324,6 +325,7 @@ func runCase(c Case, o *vh.Obs) *vh.Failure {
 				}
 				ns = append(ns, &mnode{kind: 1, val: start, node: p, out: func() int { return p.Value() }, sub: p.AddSubscription,
 					set:    func(v int) error { _, err := p.ApplyMessage([]byte(strconv.Itoa(v))); return err },
+					raw:    func(b []byte) error { _, err := p.ApplyMessage(b); return err },
 					outRef: func() nodes.NodeOutputReference { return p.Out() }, changed: clock})
 			case "addValue":
 				p := nodes.Value(op.V)
@@ -333,6 +335,7 @@ func runCase(c Case, o *vh.Obs) *vh.Failure {
 				p := &parameter.Value[int]{Name: fmt.Sprintf("p%d", len(ns)), DefaultValue: op.V}
 				ns = append(ns, &mnode{kind: 1, val: op.V, node: p, out: func() int { return p.Value() }, sub: p.AddSubscription,
 					set:    func(v int) error { _, err := p.ApplyMessage([]byte(strconv.Itoa(v))); return err },
+					raw:    func(b []byte) error { _, err := p.ApplyMessage(b); return err },
 					outRef: func() nodes.NodeOutputReference { return p.Out() }, changed: clock})
 			case "addF2":
 				cn := &counter{}
@@ -499,6 +502,28 @@ func runCase(c Case, o *vh.Obs) *vh.Failure {
 			n.sub(w)
 			n.watchers = append(n.watchers, w)
 			o.Class("subscriber-reads-a-node-on-alert")
+		case "setBad":
+			// a message the parameter cannot accept (wrong type, cut-off or empty JSON): the update is
+			// rejected with an error and nothing changes - value, version and every dependent stay as they are
+			var ps []int
+			for _, i := range srcs {
+				if ns[i].raw != nil {
+					ps = append(ps, i)
+				}
+			}
+			if len(ps) == 0 {
+				continue
+			}
+			n := ns[ps[op.A%len(ps)]]
+			bad := [][]byte{[]byte(`"oops"`), []byte(`3.`), {}, []byte(`{`), []byte(`[1]`), []byte(`1e999`)}[((op.B%6)+6)%6]
+			if err := n.raw(bad); err == nil {
+				o.Count("bad-message-accepted-not-judged", 1)
+				return nil // the parameter accepted it: what it now holds is not defined by this check
+			}
+			if n.sets == 0 {
+				o.Class("rejected-update-before-any-accepted-one")
+			}
+			o.Class("rejected-update")
 		case "set":
 			if len(srcs) == 0 {
 				continue
